@@ -253,6 +253,49 @@ func latticeCases() []ECase {
 	return out
 }
 
+// tieCases: announcement orders in which the same id is repeated by the same or by another session (a tie goes
+// to the most recent announcer), every session probed after every announcement.
+func tieCases() []ECase {
+	var out []ECase
+	ws := drv.BoundaryWords
+	patterns := [][]int{{1, 2, 1}, {1, 2, 2, 1}, {1, 2, 1, 2}, {1, 1, 2, 1}, {1, 2, 3, 1}, {1, 2, 3, 2, 1}, {2, 1, 2}, {1, 2, -1, 1}, {1, 2, 1, -2, 2}}
+	for _, h := range []uint64{ws[0], ws[1], ws[len(ws)-1]} {
+		for _, l := range []uint64{ws[1], ws[2], ws[len(ws)-1]} {
+			x := drv.U128{Hi: h, Lo: l}
+			lower := drv.U128{Hi: h, Lo: l - 1}
+			for _, pat := range patterns {
+				c := ECase{}
+				for s := 1; s <= 3; s++ {
+					c.Steps = append(c.Steps, EStep{K: "connect", S: s}, EStep{K: "params", S: s, Red: 1, Pers: 1})
+				}
+				last := map[int]drv.U128{}
+				opid := uint64(1)
+				for _, who := range pat {
+					id := x
+					if who < 0 { // a lower id in between changes nothing
+						who, id = -who, lower
+						if id.IsZero() {
+							id = x
+						}
+					}
+					idc := id
+					c.Steps = append(c.Steps, EStep{K: "elect", S: who, ID: &idc})
+					last[who] = id
+					for s := 1; s <= 3; s++ {
+						if l, ok := last[s]; ok {
+							lc := l
+							c.Steps = append(c.Steps, EStep{K: "probe", S: s, ID: &lc, OpID: opid})
+							opid++
+						}
+					}
+				}
+				out = append(out, c)
+			}
+		}
+	}
+	return out
+}
+
 // oracleC05 evaluates the property's own predicate on what the server did (no model involved).
 func oracleC05(c ECase, outs []drv.ObsOut) string {
 	var max *drv.U128
@@ -314,13 +357,13 @@ func runC05(args []string) error {
 			return err
 		}
 	} else {
-		cases = latticeCases()
+		cases = append(latticeCases(), tieCases()...)
 		for i := 0; i < *f.N; i++ {
 			cases = append(cases, genECase(r))
 		}
 	}
 	rep := drv.Report{Property: "C05", Seed: *f.Seed, Shard: drv.ShardSize, Stats: map[string]int{}, Cases: len(cases),
-		Rule: "election scripts: all ordered pairs over the 6x6 boundary lattice of (high,low) words plus random multi-session scripts; non-trivial = at least two accepted announcements with different ids, distinct by the announced id sequence"}
+		Rule: "election scripts: all ordered pairs over the 6x6 boundary lattice of (high,low) words, tie scripts (the same id repeated by the same / another / a third session in 9 orders x 9 ids, every session probed after every announcement) plus random multi-session scripts; non-trivial = at least two accepted announcements with different ids, distinct by the announced id sequence"}
 	var coq []string
 	distinct := map[string]bool{}
 	for i, c := range cases {
